@@ -216,6 +216,22 @@ func (StepMonitor) OnWrite(x *Ctx, w *Write) {
 		if !justified {
 			x.Violate("C02/step/index-changed-without-request", fmt.Sprintf("step cursor jumped (%d,%s) -> (%d,%s) with no jump / plan edit / rollback / new revision requested", bi, bs, ai, as))
 		}
+		// a jump / plan edit may land beyond the upgrade part of the target step only if that step's pods are there:
+		// "step k's pods were upgraded and reported ready" holds for a step that is entered sideways as well
+		if justified && requested(x.Mon, "jump", "editPlan") && !requested(x.Mon, "rollback", "release3") && int(ai) >= 1 && int(ai) <= len(steps) &&
+			stateOrder[as] >= stateOrder[string(rolloutsv1beta1.CanaryStepStateTrafficRouting)] && as != string(rolloutsv1beta1.CanaryStepStateCompleted) {
+			if v := ViewWorkload(x.W, sc); v != nil && steps[ai-1].Replicas != nil {
+				x.Count("C02 sideways entries beyond the upgrade gate judged")
+				planned := scaled(steps[ai-1].Replicas, v.Replicas)
+				have := v.UpdatedReady
+				if sc.Style == "canary" {
+					have = v.CanaryPodsReady
+				}
+				if have < planned {
+					x.Violate("C02/step/entered-beyond-upgrade-without-pods", fmt.Sprintf("the cursor moved (%d,%s) -> (%d,%s) on a user request, skipping the upgrade of step %d, but only %d ready pods run the new revision and the step calls for %d", bi, bs, ai, as, ai, have, planned))
+				}
+			}
+		}
 	case ai == bi && stateOrder[bs] < stateOrder[string(rolloutsv1beta1.CanaryStepStatePaused)] && stateOrder[as] >= stateOrder[string(rolloutsv1beta1.CanaryStepStateReady)] && !special:
 		// the pause gate (StepPaused) cannot be jumped over
 		x.Violate("C02/step/pause-gate-skipped", fmt.Sprintf("step %d went %s -> %s without passing StepPaused", ai, bs, as))
